@@ -95,15 +95,18 @@ def instantiate(kinds, dialect="standard"):
       lines.append(T(["H"] + vn + [tag]))
     elif kind == "S1":
       f = ["S", s1[k], "*"]
-      if k >= 1 and not rgfa:
-        f.append("xx:Z:t")      # syntax sniffing has to skip the tags
+      if not rgfa:
+        # syntax sniffing has to skip the tags, whatever their datatype
+        f += [['xj:J:{"a": [1, 2]}', "xh:H:1A"], ["xx:Z:t"], [],
+              ["xb:B:C,1,2", "xf:f:1.5", "xa:A:x", "xi:i:-3"]][k % 4]
       if rgfa:
         f += ["SN:Z:chr1", "SO:i:{}".format(10 * k), "SR:i:0"]
       lines.append(T(f))
     elif kind == "S2":
       f = ["S", s2[k], "4", "*"]
-      if k >= 1 and not rgfa:
-        f.append("xx:Z:t")
+      if not rgfa:
+        f += [['xj:J:{"a": [1, 2]}', "xh:H:1A"], ["xx:Z:t"], [],
+              ["xb:B:C,1,2", "xf:f:1.5", "xa:A:x", "xi:i:-3"]][k % 4]
       if rgfa:
         f += ["SN:Z:chr1", "SO:i:{}".format(100 + 10 * k), "SR:i:0"]
       lines.append(T(f))
